@@ -22,7 +22,8 @@ def run(chk, prop=None):
     chk.rule = RULES[prop]
     recs = core.run_driver('twins', tier=chk.tier, seed=chk.seed, args=dict(prop=prop), timeout=3000)
     chk.validate('twins', 'Trace_MM', 'Trace_MM.cfg', recs, driver='twins', jobs=14)
-    good = [r for r in recs if r['exc'] == '' and r['A'] and len(r['A'][0]['t']['data']) > 2][0]
+    goods = [r for r in recs if r['exc'] == '' and r['A'] and len(r['A'][0]['t']['data']) > 2]
+    good = goods[0]
 
     def corrupt(r):
         d = r['B'][0]['t']['data']
@@ -33,7 +34,7 @@ def run(chk, prop=None):
         else:
             d[0] = [d[0][0], d[0][1] + 3]
         return r
-    core.binding_demo(chk, 'bind-twin', 'Trace_MM', 'Trace_MM.cfg', good, corrupt, good['A'][0]['name'])
+    core.binding_demo(chk, 'bind-twin', 'Trace_MM', 'Trace_MM.cfg', good, corrupt, good['A'][0]['name'], candidates=goods[1:])
     chk.assumptions = ['eigenvector-type parameters are compared through their phase-invariant forms computed by the '
                        'driver with NumPy (U diag(l) U^H, w w^H); comparisons in Flt with slack 256*2^-19 of '
                        '|a|+|b|+2^-12 max|field|']
